@@ -1169,3 +1169,42 @@ package ion
 //@ ensures[C15] err == nil && (val[idx] == 'z' || val[idx] == 'Z') ==> result == TimezoneUTC
 //@ ensures[C07,C15] val[idx] != 'z' && val[idx] != 'Z' && val[idx] != '+' && val[idx] != '-' ==> err != nil
 //@ safe[C06]
+
+// ---------------------------------------------------------------------------
+// tokenizer.go: the character source of the text reader. read delivers the pushed-back
+// characters first (last pushed first), then the input with "\r\n" and a lone "\r"
+// folded to "\n" (Ion text: all newline forms are one newline), -1 at a clean end, and an
+// error when the underlying reader fails. The result does not depend on how the bytes are
+// chunked: the ghost stream has no chunks (C19).
+
+//@ func (*tokenizer).read
+//@ split returns
+//@ requires tkStream(t)
+//@ modifies t.pos, t.buffer, vcStreamOf(t.in).cur
+//@ ensures[C06,C19] tkStream(t) && t.pos == old(t.pos)+1
+//@ ensures[C02,C08,C19] old(len(t.buffer)) > 0 ==> err == nil && result == old(t.buffer[len(t.buffer)-1]) && len(t.buffer) == old(len(t.buffer))-1 && tkS(t).cur == old(tkS(t).cur)
+//@ ensures[C02,C19] old(len(t.buffer)) == 0 && old(tkAvail(t)) > 0 && old(tkByte(t, 0)) != 13 ==> err == nil && result == int(old(tkByte(t, 0))) && tkS(t).cur == old(tkS(t).cur)+1
+//@ ensures[C02,C19] old(len(t.buffer)) == 0 && old(tkAvail(t)) >= 2 && old(tkByte(t, 0)) == 13 && old(tkByte(t, 1)) == 10 ==> err == nil && result == 10 && tkS(t).cur == old(tkS(t).cur)+2
+//@ ensures[C02,C19] old(len(t.buffer)) == 0 && old(tkAvail(t)) >= 2 && old(tkByte(t, 0)) == 13 && old(tkByte(t, 1)) != 10 ==> err == nil && result == 10 && tkS(t).cur == old(tkS(t).cur)+1
+//@ ensures[C02,C19] old(len(t.buffer)) == 0 && old(tkAvail(t)) == 1 && old(tkByte(t, 0)) == 13 && old(tkS(t).end) == io.EOF ==> err == nil && result == 10 && tkS(t).cur == old(tkS(t).cur)+1
+//@ ensures[C07,C19] old(len(t.buffer)) == 0 && old(tkAvail(t)) == 0 && old(tkS(t).end) == io.EOF ==> err == nil && result == -1
+//@ ensures[C19] old(len(t.buffer)) == 0 && old(tkAvail(t)) == 0 && old(tkS(t).end) != io.EOF ==> err != nil
+//@ ensures[C19] old(len(t.buffer)) == 0 && old(tkAvail(t)) == 1 && old(tkByte(t, 0)) == 13 && old(tkS(t).end) != io.EOF ==> err != nil
+//@ ensures[C02,C08] forall k int :: 0 <= k && k < len(t.buffer) ==> t.buffer[k] == old(t.buffer[k])
+//@ safe[C06]
+
+//@ func (*tokenizer).unread
+//@ modifies t.pos, t.buffer
+//@ ensures[C02,C08] len(t.buffer) == old(len(t.buffer))+1 && t.buffer[len(t.buffer)-1] == c && t.pos == old(t.pos)-1
+//@ ensures[C02,C08] forall k int :: 0 <= k && k < old(len(t.buffer)) ==> t.buffer[k] == old(t.buffer[k])
+//@ safe[C06]
+
+//@ func (*tokenizer).peek
+//@ split returns
+//@ requires tkStream(t)
+//@ modifies t.pos, t.buffer, vcStreamOf(t.in).cur
+//@ ensures[C06,C19] tkStream(t)
+//@ ensures[C02,C08] old(len(t.buffer)) > 0 ==> err == nil && result == old(t.buffer[len(t.buffer)-1]) && len(t.buffer) == old(len(t.buffer)) && t.pos == old(t.pos) && tkS(t).cur == old(tkS(t).cur)
+//@ ensures[C02,C08] err == nil ==> len(t.buffer) >= 1 && t.buffer[len(t.buffer)-1] == result && t.pos == old(t.pos)
+//@ ensures[C19] old(len(t.buffer)) == 0 && old(tkAvail(t)) == 0 && old(tkS(t).end) != io.EOF ==> err != nil
+//@ safe[C06]
